@@ -7,3 +7,35 @@ import "testing"
 // coverage feedback steers the grammar; the *Bytes targets take raw input.
 
 func FuzzC01(f *testing.F) { fuzzProp(f, "C01") }
+func FuzzC02(f *testing.F) { fuzzProp(f, "C02") }
+func FuzzC16(f *testing.F) { fuzzProp(f, "C16") }
+func FuzzC03(f *testing.F) { fuzzProp(f, "C03") }
+
+// fuzzBytes feeds raw fuzz input through a case constructor.
+func fuzzBytes(f *testing.F, id string, mk func([]byte) any, seeds ...string) {
+	p := registry[id]
+	if p == nil {
+		f.Skip("not registered")
+	}
+	for _, s := range seeds {
+		f.Add([]byte(s))
+	}
+	f.Fuzz(func(t *testing.T, data []byte) {
+		if err := RunCase(p, mk(data)); err != nil {
+			t.Fatalf("%s: %v", id, err)
+		}
+	})
+}
+
+var jsonSeeds = []string{
+	`[{"test":0},[0],"test",true,1,3.14,null]`,
+	`{"first":{"test":0},"second":[0],"third":"test","fourth":true,"fifth":1,"sixth":3.14,"seventh":null}`,
+	`["\/"]`, `["😀"]`, `{"a\/b":1}`, "[\"�\"]", `[1E5,1e+5,0e0,2.5e-3,-0,-0.0,12.50]`,
+	"{\n\t\"a\" : [ 1 , 2 ] ,\r\n \"a\" : { } }", `[[[[[[]]]]]]`, `{"":{"":{"":[]}}}`, `["Aé€𝄞"]`,
+	`[9223372036854775807,9223372036854775808,-9223372036854775809,1.7976931348623157e308]`,
+	`["\"\\\b\f\n\r\t"]`, `[true,false,null]`, `{"k":"v","k2":[{"x":null}]}`,
+}
+
+func FuzzC03Bytes(f *testing.F) {
+	fuzzBytes(f, "C03", func(b []byte) any { return &C03Case{Text: string(b)} }, jsonSeeds...)
+}
